@@ -42,13 +42,15 @@ type completion struct {
 // Breaker is the three-state reference machine of one circuit-breaking rule, written from the
 // property statement: driven only by completed requests and time.
 type Breaker struct {
-	R        BreakerRule
-	State    int
-	RetryAt  uint64
-	Probes   uint64
-	OpenedAt uint64
-	comps    []completion
-	Log      *[]Transition
+	// TripValues: the value that reached the threshold at each Closed->Open transition (window error count, or ratio)
+	TripValues []float64
+	R          BreakerRule
+	State      int
+	RetryAt    uint64
+	Probes     uint64
+	OpenedAt   uint64
+	comps      []completion
+	Log        *[]Transition
 }
 
 func NewBreaker(r BreakerRule, log *[]Transition) *Breaker {
@@ -166,6 +168,11 @@ func (b *Breaker) Complete(now, rt uint64, err bool) {
 	if trip {
 		b.RetryAt = now + b.R.RetryTimeoutMs
 		b.OpenedAt = now
+		if b.R.Strategy == ErrorCount {
+			b.TripValues = append(b.TripValues, float64(f))
+		} else {
+			b.TripValues = append(b.TripValues, float64(f)/float64(total))
+		}
 		b.emit(Closed, Open)
 	}
 }
